@@ -115,6 +115,7 @@ func init() { props["C02"] = propC02 }
 
 func propC02(c *Ctx) {
 	r := c.rep
+	c.officialValid()
 	c.focusEntropies(func(li int, e []byte) {
 		l := int64(langVals[li])
 		c.chk("focus-word", l, c.specSentence(l, e))
